@@ -1266,6 +1266,7 @@ def run_hier(ctx, numqi, shard):
     ctx.workload('random')
     cfgs = hier_configs(k, shard['max_index'])
     ctx.extra['configs'] = len(cfgs)
+    extras = k == 1 or ctx.tier != 'quick'      # option calls (return_info, zero_eps): level 1 only in the quick tier (cost)
     control_done = {}
     tcost = {}
     for it in range(shard['n']):
@@ -1305,7 +1306,7 @@ def run_hier(ctx, numqi, shard):
             with ctx.guard('hierarchy'):
                 plain = ms.has_rank_hierarchical_method(basis if it % 5 else list(basis), rank=r, hierarchy_k=k)
             _worst(ctx, 'hierarchy_call_seconds', 'max', time.time() - t0)
-            if it % 7 == 1 and r == p + 1:
+            if it % 7 == 1 and r == p + 1 and n_index(N, p + k) <= 120 and extras:      # small systems only (cost)
                 # option return_info=True: same boolean, and the matrix is the Gram matrix the answer is about (judged in the contract)
                 with ctx.guard('hierarchy'):
                     ri = ms.has_rank_hierarchical_method(basis, rank=r, hierarchy_k=k, return_info=True)
@@ -1319,7 +1320,7 @@ def run_hier(ctx, numqi, shard):
             ctx.set_case({'op': 'control', 'dA': dA, 'dB': dB, 'rank_arg': p + 1, 'N': N, 'complex': cplx, 'k': k})
             with ctx.guard('hierarchy'):
                 res = ms.has_rank_hierarchical_method(ctrl, rank=p + 1, hierarchy_k=k)
-                if len(control_done) % 3 == 1:
+                if len(control_done) % 3 == 1 and n_index(N, p + k) <= 120 and extras:
                     # option zero_eps: a stricter regularity threshold can only withdraw a certificate, never create one
                     res_strict = ms.has_rank_hierarchical_method(ctrl, rank=p + 1, hierarchy_k=k, zero_eps=1e-4)
                     ctx.check(_is_bool(res) and _is_bool(res_strict) and (bool(res) or not bool(res_strict)), 'hierarchy/zero_eps-not-monotone',
